@@ -15,13 +15,88 @@ Theorem C20_matcher_meets_spec :
 Proof. exact is_allowed_spec. Qed.
 Print Assumptions C20_matcher_meets_spec.
 
+(* NO DISALLOWED URL IS REQUESTED, AND ROBOTS.TXT COMES FIRST.  In every reachable state of the
+   gate LTS - any number of workers, any interleaving of their steps, any URLs picked in any
+   order, any filter verdicts, any server behaviour, any redirect targets - with robots on:
+   every request of an item's session (the initial one AND every redirect hop) comes after the
+   rules for the origin (scheme, host, port) of the requested URL were stored, by a worker that
+   had requested that origin's robots.txt before, and those rules allow the URL for the
+   configured user agent.  The initial request is for the item's own URL. *)
+Theorem C20_gate :
+  forall cfg s, c_robots cfg = true -> reachable cfg s ->
+  forall t2 w u cur hop t1, g_trace s = t2 ++ EvReq w u cur hop :: t1 ->
+    (hop = false -> cur = u) /\
+    exists w' r t0,
+      In (EvStored w' (u_origin cur) r) t1 /\ is_allowed r (c_ua cfg) (u_text cur) = true /\
+      In (EvRobotsReq w' (u_origin cur) t0) t1.
+Proof. exact gate. Qed.
+Print Assumptions C20_gate.
+
+(* NOT REQUESTED AGAIN ONCE OBTAINED: once rules are stored for an origin, no robots.txt
+   acquisition for it begins and no request of a robots.txt session for it goes on the wire -
+   for every interleaving (the per-origin fetch lock closes the concurrent first-visit window). *)
+Theorem C20_once_per_origin :
+  forall cfg s, reachable cfg s ->
+  forall t2 e t1 w o, g_trace s = t2 ++ e :: t1 ->
+    (e = EvFetchStart w o \/ exists t, e = EvRobotsReq w o t) ->
+    forall w' r, ~ In (EvStored w' o r) t1.
+Proof. exact once_per_origin. Qed.
+Print Assumptions C20_once_per_origin.
+
+(* ... the rules of an origin are stored at most once (so "the rules of the origin" in C20_gate
+   is one rule set for the whole crawl) ... *)
+Theorem C20_stored_once :
+  forall cfg s, reachable cfg s ->
+  forall t2 w o r t1, g_trace s = t2 ++ EvStored w o r :: t1 -> forall w' r', ~ In (EvStored w' o r') t1.
+Proof. exact stored_once. Qed.
+Print Assumptions C20_stored_once.
+
+(* ... at most one acquisition per origin is in progress at any time, and every request of a
+   robots.txt session belongs to an acquisition its worker began. *)
+Theorem C20_one_acquisition_at_a_time :
+  forall cfg s, reachable cfg s ->
+  forall i j o, i <> j -> acq_of (g_workers s i) = Some o -> acq_of (g_workers s j) = Some o -> False.
+Proof. exact one_acquisition_at_a_time. Qed.
+Print Assumptions C20_one_acquisition_at_a_time.
+
+Theorem C20_robots_request_in_acquisition :
+  forall cfg s, reachable cfg s ->
+  forall t2 w o t t1, g_trace s = t2 ++ EvRobotsReq w o t :: t1 -> In (EvFetchStart w o) t1.
+Proof. exact robots_request_in_acquisition. Qed.
+Print Assumptions C20_robots_request_in_acquisition.
+
+(* A SERVER ERROR POSTPONES.  A 5xx answer to robots.txt stores nothing, releases the fetch lock,
+   and the item goes to handle_error (status error, try count + 1) without any request for it ... *)
+Theorem C20_5xx_postpones :
+  forall cfg p i u cur hop n s hl loc body,
+    500 <= s <= 599 ->
+    on_robots_response cfg p i u cur hop n (Resp s hl loc body) = (p, WIdle, [EvPostponed i u], false).
+Proof. exact server_error_postpones. Qed.
+Print Assumptions C20_5xx_postpones.
+
+(* ... as long as an origin's robots.txt was never obtained, no URL of that origin is requested ... *)
+Theorem C20_never_obtained_never_requested :
+  forall cfg s o, c_robots cfg = true -> reachable cfg s ->
+  (forall w r, ~ In (EvStored w o r) (g_trace s)) ->
+  forall w u cur hop, u_origin cur = o -> ~ In (EvReq w u cur hop) (g_trace s).
+Proof. exact never_obtained_never_requested. Qed.
+Print Assumptions C20_never_obtained_never_requested.
+
+(* ... and the URL table gives such an item exactly [tries] visits (one acquisition attempt each)
+   before the TriesFilter skips it with try count tries + 1. *)
+Theorem C20_5xx_retry_budget :
+  forall tries fuel, (0 < tries)%nat -> (tries + 1 < fuel)%nat ->
+  visits_5xx fuel tries {| it_status := StTodo; it_tries := 0 |} 0 = ({| it_status := StSkipped; it_tries := S tries |}, tries).
+Proof. exact visits_5xx_total. Qed.
+Print Assumptions C20_5xx_retry_budget.
+
 (* A final robots.txt response that is neither 200 nor 5xx (404, 410, 403, 204 ...) stores the
    blank rule set, which allows every URL for every agent, and the item goes on to be fetched. *)
 Theorem C20_missing_allows :
-  forall cfg p i u n s hl loc body,
+  forall cfg p i u cur hop n s hl loc body,
     is_redirect_status s = false -> ~ (500 <= s <= 599) -> s <> 200 ->
-    on_robots_response cfg p i u n (Resp s hl loc body) =
-      (pool_store p (u_origin u) [], WFetchSend u u false, [EvStored i (u_origin u) []])
+    on_robots_response cfg p i u cur hop n (Resp s hl loc body) =
+      (pool_store p (u_origin cur) [], WFetchSend u cur hop, [EvStored i (u_origin cur) []], false)
     /\ forall ua url, is_allowed [] ua url = true.
 Proof. exact missing_allows. Qed.
 Print Assumptions C20_missing_allows.
@@ -29,15 +104,15 @@ Print Assumptions C20_missing_allows.
 (* The parser is handed the whole 200 body, whatever its length, and what it returns is what
    the pool answers with for that origin afterwards. *)
 Theorem C20_whole_file :
-  forall cfg p i u n hl loc body,
-    exists w ev, on_robots_response cfg p i u n (Resp 200 hl loc body) =
-                 (pool_store p (u_origin u) (parse_robots body), w, ev)
-                 /\ pool_lookup (pool_store p (u_origin u) (parse_robots body)) (u_origin u) = Some (parse_robots body).
+  forall cfg p i u cur hop n hl loc body,
+    exists w ev, on_robots_response cfg p i u cur hop n (Resp 200 hl loc body) =
+                 (pool_store p (u_origin cur) (parse_robots body), w, ev, false)
+                 /\ pool_lookup (pool_store p (u_origin cur) (parse_robots body)) (u_origin cur) = Some (parse_robots body).
 Proof. exact whole_file. Qed.
 Print Assumptions C20_whole_file.
 
 (* A page with <meta name=robots content=...nofollow...> yields no linked context at all;
-   inline (page requisite) contexts are kept; nothing is invented. *)
+   inline (page requisite) contexts are kept; nothing is invented. For every page. *)
 Theorem C20_nofollow :
   forall elems links,
     existsb robots_cannot_follow elems = true ->
@@ -46,6 +121,13 @@ Theorem C20_nofollow :
     (forall l, In l (scrape_nofollow true elems links) -> In l links).
 Proof. exact nofollow_drops_linked. Qed.
 Print Assumptions C20_nofollow.
+
+(* Runs of the real code replayed through [run_labels] by the correspondence are runs of the LTS
+   the theorems above quantify over. *)
+Theorem C20_replay_sound :
+  forall cfg ls s s', reachable cfg s -> run_labels cfg s ls = Some s' -> reachable cfg s'.
+Proof. exact run_labels_reachable. Qed.
+Print Assumptions C20_replay_sound.
 
 (* ---- non-vacuity ---- *)
 Definition ex_ua : str := Eval vm_compute in s2l "Wpull/2.0.3 (gzip)".
@@ -86,4 +168,35 @@ Example C20_nofollow_nonvacuous :
   existsb robots_cannot_follow elems = true /\
   children (scrape_nofollow true elems links) = [ (s2l "http://h/i.png", true) ] /\
   List.length (children (scrape_nofollow false elems links)) = 2%nat.
+Proof. vm_compute. repeat split. Qed.
+
+(* a reachable state with two workers on one origin: worker 1 waits for the fetch lock instead of
+   requesting robots.txt a second time, then decides from the pool; worker 0 is redirected to a
+   disallowed URL and skips instead of requesting it *)
+Definition ex_o1 : origin := {| o_scheme := s2l "http"; o_host := s2l "h1"; o_port := 80 |}.
+Definition ex_u (t : string) : url := {| u_origin := ex_o1; u_text := s2l t |}.
+Definition ex_cfg : config := {| c_robots := true; c_ua := ex_ua; c_max_redirects := 20; c_workers := 2 |}.
+Definition ex_labels : list label :=
+  [ LPick 0 (ex_u "http://h1/a"); LPick 1 (ex_u "http://h1/b"); LCheck 0 true; LCheck 1 true; LLock 0;
+    LRobotsSend 0; LRobotsResp 0 (Resp 200 false None ex_body); LLock 1; LFetchSend 0;
+    LFetchResp 0 (FRRedirect (ex_u "http://h1/secret/x")); LCheck 0 true; LFetchSend 1; LFetchResp 1 FRDone ].
+Example C20_gate_nonvacuous :
+  option_map g_trace (run_labels ex_cfg g_init ex_labels) =
+    Some [ EvReq 1 (ex_u "http://h1/b") (ex_u "http://h1/b") false;
+           EvSkipped 0 (ex_u "http://h1/a");
+           EvReq 0 (ex_u "http://h1/a") (ex_u "http://h1/a") false;
+           EvStored 0 ex_o1 (parse_robots ex_body);
+           EvRobotsReq 0 ex_o1 (robots_url ex_o1);
+           EvFetchStart 0 ex_o1 ]
+  /\ (* while worker 0 holds the lock, worker 1 cannot take it *)
+  match run_labels ex_cfg g_init (firstn 6 ex_labels ++ [LLock 1]) with None => true | Some _ => false end = true
+  /\ (* two acquisitions for one origin are in progress in no reachable state; here: one is *)
+  option_map (fun s => (acq_of (g_workers s 0), acq_of (g_workers s 1))) (run_labels ex_cfg g_init (firstn 6 ex_labels))
+    = Some (Some ex_o1, None).
+Proof. vm_compute. repeat split. Qed.
+
+Example C20_5xx_nonvacuous :
+  fst (fst (on_robots_response ex_cfg [] 0 (ex_u "http://h1/a") (ex_u "http://h1/a") false 0 (Resp 503 false None ex_body))) = ([], WIdle)
+  /\ visits_5xx 10 3 {| it_status := StTodo; it_tries := 0 |} 0 = ({| it_status := StSkipped; it_tries := 4 |}, 3%nat)
+  /\ is_redirect_status 404 = false.
 Proof. vm_compute. repeat split. Qed.
